@@ -467,6 +467,9 @@ def jobs(tier, seed):
                 # static_ic forks on which initial forces are zero: keep it to the small systems in the quick tier
                 small = "coupled-3" not in name and "coupled-2" not in name and name != "diag-under-crit-over"
                 ics = ["dv"] + ([["static", "zero"][(si + order + seed) % 2]] if small else ["zero"])
+            if name.startswith("coupled-4"):
+                # static_ic forks on the zero pattern of the initial force: 4 DOF x 4 steps did not finish in 100 min
+                ics = [i for i in ics if i != "static"]
             for ic in ics:
                 out.append(H.Job("%s-o%d-%s" % (name, order, ic), job, name, tier, order, ic, nt, weight=5))
     return out
